@@ -1,7 +1,7 @@
 (* Model/FieldMap.v — executable model of eino's Workflow field mappings
    (compose/field_mapping.go, compose/workflow.go:checkAndAddMappedPath,
    compose/graph.go:updateToValidateMap / compile), as repaired by the fix: commits of
-   property C15 (F-C15a..f).  Definitions only.
+   property C15 (F-C15a..i).  Definitions only.
 
    compile side : [tinsert]/[overlap_check] (trie of mapped target paths),
                   [extract_ty] (checkAndExtractFieldType), [validate] (validateFieldMapping),
@@ -123,18 +123,39 @@ Inductive sres : Type :=
 
 Definition deref1 (t : ty) : ty := match t with TPtr u => u | _ => t end.
 
-(* checkAndExtractFieldType (after F-C15e: one pointer level, no step below a leaf) *)
+(* checkAndExtractFieldType (after F-C15e: one pointer level, no step below a leaf; after
+   F-C15i: no step below a pointer to an interface) *)
 Fixpoint extract_ty (env : senv) (t : ty) (p : path) : sres :=
   match p with
   | [] => SOk t false
   | f :: rest =>
       match t with
       | TMap ks e => if ks then extract_ty env e rest else SErr
+      | TAny => match rest with [] => SOk TAny false | _ :: _ => SOk TAny true end
       | _ =>
           match deref1 t with
           | TStruct n =>
               match lookup_field env n f with
               | Some (true, ft) => extract_ty env ft rest
+              | _ => SErr
+              end
+          | _ => SErr
+          end
+      end
+  end.
+
+(* --- the code before fix F-C15i: a path below *any was accepted --- *)
+Fixpoint extract_ty_v0 (env : senv) (t : ty) (p : path) : sres :=
+  match p with
+  | [] => SOk t false
+  | f :: rest =>
+      match t with
+      | TMap ks e => if ks then extract_ty_v0 env e rest else SErr
+      | _ =>
+          match deref1 t with
+          | TStruct n =>
+              match lookup_field env n f with
+              | Some (true, ft) => extract_ty_v0 env ft rest
               | _ => SErr
               end
           | TAny => match rest with [] => SOk TAny false | _ :: _ => SOk TAny true end
@@ -502,3 +523,35 @@ Definition run_stream (env : senv) (T : ty) (ds : list decl) (ckss : list checks
   if has_plain ds then
     match srcs with s :: _ => Ok s | [] => Err ESrc end
   else run_stream_from env T ds ckss srcs.
+
+(* ================================================================ vocabulary of the theorems *)
+
+(* what a slot of static type [st] holds after the value [x] has been put into it: the nil
+   interface value becomes the nil (zero) value of the slot's type *)
+Definition conv (st : ty) (x : val) : val :=
+  match dyn x with None => zero st | Some _ => x end.
+
+(* a value that a Go variable of static type [t] can hold (shallow part) ... *)
+Definition slot_ok (t : ty) (v : val) : bool :=
+  match dyn v with
+  | None => ty_eqb t TAny
+  | Some d => assignable d t
+  end.
+
+(* ... and whose components are such values again (deep part) *)
+Fixpoint wfv (env : senv) (v : val) : bool :=
+  match v with
+  | VStruct n fs =>
+      forallb (fun kv => match lookup_field env n (fst kv) with
+                         | Some (_, ft) => slot_ok ft (snd kv) && wfv env (snd kv)
+                         | None => false
+                         end) fs
+  | VPtr u (Some w) => slot_ok u w && wfv env w
+  | VMap _ e (Some es) => forallb (fun kv => slot_ok e (snd kv) && wfv env (snd kv)) es
+  | _ => true
+  end.
+
+Definition has_type (env : senv) (t : ty) (v : val) : bool := slot_ok t v && wfv env v.
+
+(* all target paths of a declaration list, in declaration order *)
+Definition all_targets (ds : list decl) : list path := List.concat (map decl_paths ds).
